@@ -1335,6 +1335,7 @@ class BaseImage(metaclass=ImageMeta):
         image_it._animator = image_it._animate(img, alpha, fmt, style_args)
         cursor_up = CURSOR_UP % (lines - 1)
         cursor_down = CURSOR_DOWN % lines
+        interrupted = True
 
         try:
             print(next(image_it._animator), end="", flush=True)  # First frame
@@ -1353,6 +1354,9 @@ class BaseImage(metaclass=ImageMeta):
 
                 # Render next frame during current frame's duration
                 start = time.time()
+
+            # The cursor is already on the last line of the image
+            interrupted = False
         except KeyboardInterrupt:
             self._handle_interrupted_draw()
         except Exception:
@@ -1364,7 +1368,8 @@ class BaseImage(metaclass=ImageMeta):
             self._seek_position = prev_seek_pos
             # Move the cursor to the last line of the image to prevent "overlaid"
             # output in the terminal
-            print(cursor_down, end="")
+            if interrupted:
+                print(cursor_down, end="")
 
     def _format_render(
         self,
